@@ -19,7 +19,7 @@ EXCL = {}
 # affect their oracle; a new finding added here reaches every engine at once.
 # KF-pad-wide advertises a larger shape than it produces: whatever is stacked on it (a contraction, a
 # concatenate) fails to unify chunks or produces blocks of other shapes than advertised
-RAISES = ("KF-layout-drift-over-shuffle", "KF-minmax-empty", "KF-setitem-int-with-negstep", "KF-layout-drift-over-window-reduction", "KF-pad-wide", "KF-swv-over-higher-order-diff", "KF-reshape-zero-size", "KF-ufunc-where-0d-out", "KF-roll-flat-trailing-unit-axes", "KF-zero-width-block-reductions")  # graph build / compute raises, graph not closed, or wrong block shapes
+RAISES = ("KF-layout-drift-over-shuffle", "KF-minmax-empty", "KF-setitem-int-with-negstep", "KF-layout-drift-over-window-reduction", "KF-pad-wide", "KF-swv-over-higher-order-diff", "KF-reshape-zero-size", "KF-ufunc-where-0d-out", "KF-roll-flat-trailing-unit-axes", "KF-zero-width-block-reductions", "KF-zero-width-block-broadcast")  # graph build / compute raises, graph not closed, or wrong block shapes
 VALUES = ("KF-tensordot-int-dtype", "KF-argext-ties-axis-none")  # computes, but differs from NumPy
 ALL = RAISES + VALUES
 
@@ -107,6 +107,29 @@ def _roll_flat_unit_axes(prog, vals):
         if s["op"] == "reshape" and r.ndim >= 3 and r.shape[-1] == 1 and r.shape[-2] == 1 and r.size > 1 and r.ndim > a[0].ndim:
             return True
     return False
+
+
+@excl("KF-zero-width-block-broadcast")
+def _zero_width_block_broadcast(prog, vals):
+    """roll along a length-1 axis (its two pieces leave chunks (1, 0) on that axis) feeding a broadcasting
+    elementwise op: a length-1 axis that carries a zero-width block is not recognised as broadcastable."""
+    L = len(prog["leaves"])
+    src = set()
+    for k, (s, a, r) in enumerate(_stmts(prog, vals)):
+        if s["op"] == "roll" and s.get("axis") is not None and a[0].ndim and a[0].shape[s["axis"]] == 1 and s.get("shift", 0) != 0:
+            src.add(L + k)
+    if not src:
+        return False
+
+    def reaches(v, seen):
+        if v in src:
+            return True
+        if v < L or v in seen:
+            return False
+        seen.add(v)
+        return any(reaches(a, seen) for a in prog["stmts"][v - L]["args"])
+
+    return any(len(set(s["args"])) >= 2 and any(reaches(a, set()) for a in s["args"]) for s in prog["stmts"])
 
 
 @excl("KF-zero-width-block-reductions")
